@@ -387,7 +387,8 @@ def rule_gsd(ctx, tu):
     # only under `difference != 0` and the direction of the correction.  A further skip on the species' amounts (`total < 1`,
     # ...) leaves a drawn total that is not floor(real total)
     import re as _re
-    OWNV = r"(delta\w*|rm_\w+|mesh_x_sto|target\w*|cumul\w*|\w*count\w*)"
+    # (the difference may be tested on the local or on the table it was read from)
+    OWNV = r"(delta\w*|dtot\w*|\w*diff\w*|rm_\w+|mesh_x_sto|target\w*|cumul\w*|\w*count\w*)"
     for s2, ch in unit:
         extra = [t for t, b in ch if not _re.search(r"\b%s\b" % OWNV, t)]
         ctx.check(not extra, R, s2.node, f.qual, text(s2.node)[:50] + " reached for every species with a difference",
